@@ -138,7 +138,7 @@ func C01(c *vh.Ctx) {
 	c.Bound("S1_pattern_nodes_max", pmax)
 	c.Bound("S1_message_nodes_max", mmax)
 	c.Rule("S1: every (pattern,message,bindings) with |P|<=bound, |M|<=bound over atoms {1,2,\"a\",true,null}, keys {a,b}, variables " + fmt.Sprint(c01Vars) +
-		", bindings = {} / each variable x value list / each pair x short list. S2 (pattern-directed): every pattern with variables up to a larger bound over a two-letter alphabet (incl. inequality variables), every assignment of planted values / inequality bounds, messages = the instantiated pattern plus every combination of up to k edits (insertions of extra keys/elements incl. near-copies, atom changes, dropped keys, dropped or duplicated array elements), bindings = the inequality bounds plus nothing / each variable pre-bound to its planted value, to generalisations of it, or to conflicting values; the unedited core also wrapped 1-4 levels deep. Enumeration is an odometer (duplicate-free); non-trivial = Match returned >=1 binding set for a pattern that has variables.")
+		", bindings = {} / each variable x value list / each pair x short list. S2 (pattern-directed): every pattern with variables up to a larger bound over a two-letter alphabet (incl. inequality variables), every assignment of planted values / inequality bounds, messages = the instantiated pattern plus every combination of up to k edits (insertions of extra keys/elements incl. near-copies, atom changes, dropped keys, dropped or duplicated array elements), bindings = the inequality bounds plus nothing / each variable pre-bound to its planted value, to generalisations of it, or to conflicting values; the unedited core also wrapped 1-4 levels deep. S3 (wide arrays): pattern arrays of 2-5 structured elements with distinct variables (maps, arrays, mixed; with and without an array variable; bare and under a key) against message arrays with as many or one more ambiguous elements. Enumeration is an odometer (duplicate-free); non-trivial = Match returned >=1 binding set for a pattern that has variables.")
 	pats := ps.UpTo(pmax)
 	msgs := ms.UpTo(mmax)
 	if c.Shard == 0 {
@@ -162,6 +162,57 @@ func C01(c *vh.Ctx) {
 		}
 	}
 	c01S2(c)
+	// S3: wide arrays - several structured pattern elements competing for several ambiguous message elements
+	for i, cs := range wideArrayCases() {
+		if c.Mine(uint64(i)) {
+			soundOne(c, cs, true)
+			c.Count("S3_evaluations", 1)
+		}
+	}
+}
+
+// wideArrayCases: pattern arrays with 2-5 structured elements (each with its own variable), with and
+// without an array variable, against message arrays with as many or one more ambiguous elements
+// (optionally mixed with scalars); bare and under a key.
+func wideArrayCases() []matchCase {
+	var out []matchCase
+	names := []string{"?a", "?b", "?c", "?d", "?e"}
+	for n := 2; n <= 5; n++ {
+		for _, withVar := range []bool{false, true} {
+			for extra := 0; extra <= 1; extra++ {
+				for _, scalars := range []int{0, 1} {
+					for _, shape := range []string{"map", "array", "mixed"} {
+						var pa, ma []interface{}
+						for i := 0; i < n; i++ {
+							switch {
+							case shape == "map" || (shape == "mixed" && i%2 == 0):
+								pa = append(pa, M{"k": names[i]})
+							default:
+								pa = append(pa, []interface{}{names[i]})
+							}
+						}
+						if withVar {
+							pa = append(pa, "?x")
+						}
+						for i := 0; i < n+extra; i++ {
+							switch {
+							case shape == "map" || (shape == "mixed" && i%2 == 0):
+								ma = append(ma, M{"k": float64(i + 1)})
+							default:
+								ma = append(ma, []interface{}{float64(i + 1)})
+							}
+						}
+						for i := 0; i < scalars; i++ {
+							ma = append([]interface{}{"s"}, ma...)
+						}
+						out = append(out, matchCase{P: pa, M: ma, B: M{}}, matchCase{P: M{"items": pa}, M: M{"items": ma, "other": 1.0}, B: M{}})
+						out = append(out, matchCase{P: pa, M: ma, B: M{"?a": float64(n)}})
+					}
+				}
+			}
+		}
+	}
+	return out
 }
 
 // mutations returns every message obtained from m by one destructive edit: change an atom,
